@@ -112,3 +112,19 @@ func mix(seed int64, i int) int64 {
 }
 
 func runtimeGosched() { time.Sleep(200 * time.Microsecond) }
+
+// withWatchdog runs f; if it does not return within d the process prints all goroutine stacks and
+// exits with status 97: a steered run can only get stuck if the engine blocks where the spec says
+// it cannot, or if the steering itself is wrong - the orchestrator reports it as inconclusive.
+func withWatchdog(what string, d time.Duration, f func()) {
+	done := make(chan struct{})
+	go func() { f(); close(done) }()
+	select {
+	case <-done:
+	case <-time.After(d):
+		buf := make([]byte, 1<<20)
+		n := runtime.Stack(buf, true)
+		fmt.Fprintf(os.Stderr, "HARNESS-WATCHDOG: %s did not finish within %v\n%s\n", what, d, buf[:n])
+		os.Exit(97)
+	}
+}
